@@ -198,7 +198,7 @@ def make_check(n, variants):
             info = {}
             case = lambda mv: {"n": n, "edges": [[i, j, k] for (i, j), k in sorted(edges.items())], "keys": keys,  # noqa
                                "outcomes": dict((str(i), o) for i, o in chosen.items()), "variant": variant, "broker_given": given,
-                               "info": info}
+                               "info": info, "base": [mv.int(b_) for b_ in base]}
             en.note_sample(case)
             # reference: one single pass in CPython's native order
             ref_b = dr.run(w.graph(keys), broker=dr.Broker())
@@ -321,7 +321,7 @@ def _native(case, hashes=None):
         subs = list(dr.get_subgraphs(w.graph(case["keys"])))
         return subgraph_oracle(w, case["keys"], subs)
     outcomes = dict((int(i), o) for i, o in case["outcomes"].items())
-    base = [100 * (i + 1) for i in range(n)]
+    base = case.get("base") or [100 * (i + 1) for i in range(n)]
     keys = case["keys"]
     # the reference is always the single pass over components in their creation order
     w0 = World(n, edges, lambda i: outcomes.get(i, "value"), base, list(range(n)) if hashes is not None else None)
